@@ -1,6 +1,6 @@
 (* C18 at the tree under test, part 3: yaclib_std::shared_mutex, shared_timed_mutex.  Compiles exactly when
-   SharedMutex::lock / lock_shared and SharedTimedMutex::TimedWaitHelper re-check and the latter takes the lock
-   with LockHelper() when exclusive. *)
+   SharedMutex::lock / lock_shared and SharedTimedMutex::TimedWaitHelper re-check, the latter takes the lock
+   with LockHelper() when exclusive, and blocked lock_shared callers wait on the exclusive queue. *)
 From Coq Require Import List Arith Bool.
 Import ListNotations.
 From YV Require Import model.FiberSync gen.FiberSyncSource proofs.FiberSyncShProofs props.Properties_C18.
